@@ -58,6 +58,7 @@ fn decode_adv(u: &mut Unstructured) -> c12::AdvHistory {
                     size: ((b >> 3) % 8) as usize * align,
                     align,
                     uninit: c & 0x80 != 0,
+                    via: (b >> 6) + (c >> 6),
                 });
             }
             5 | 6 => reqs.push(c12::AdvReq::RemoveCurrent { sel: u.arbitrary::<u16>().unwrap_or(0) }),
